@@ -281,6 +281,12 @@ def plan(tier):
     for n in ([2, 3, 4] if q else [2, 3, 4, 5, 6]):
         jobs.append((RowSum(n=n, commuting=True), {}))
         jobs.append((RowSum(n=n, commuting=False), {}))
+    if q:
+        # budgeted look at the next size: every explored path is solver-decided, the exploration is not complete
+        for h, budget in ((Fidelity(n=2, symmetry=False), 60), (CanonicalForm(n=3), 40)):
+            h.parallel = True
+            h.partial_ok = True
+            jobs.append((h, {"time_budget": budget, "chunk_paths": 16, "chunk_s": 8.0}))
     if not q:
         h = CanonicalForm(n=3)
         h.parallel = True
